@@ -178,6 +178,20 @@ func eqTerm(t types.Type, x, y value) *sym.Term {
 		return sym.Bool(x == y.(unsafe.Pointer))
 	case structure:
 		y := y.(structure)
+		if nt, ok := t.(*types.Named); ok && nt.Obj().Name() == "Value" && nt.Obj().Pkg() != nil && nt.Obj().Pkg().Path() == "reflect" {
+			// the modelled reflect.Value: {rtype, value}, or two nil interfaces for the zero Value
+			xt, yt := rV2T(x).t, rV2T(y).t
+			if xt == nil || yt == nil {
+				return sym.Bool(xt == nil && yt == nil)
+			}
+			if !types.Identical(xt, yt) {
+				return sym.False
+			}
+			if !types.Comparable(xt) {
+				panic(engineAbort{"comparison of two non-zero reflect.Values of type " + xt.String()})
+			}
+			return eqTerm(xt, rV2V(x), rV2V(y))
+		}
 		tStruct := t.Underlying().(*types.Struct)
 		var cs []*sym.Term
 		for i, n := 0, tStruct.NumFields(); i < n; i++ {
